@@ -292,6 +292,10 @@ func (g *G) prog(guard bool) *Prog {
 			nops = g.intn(3)
 		}
 	}
+	if g.mode == "c18" && g.chance(0.25) {
+		// reach into a (permanent) binding and change it below the top level
+		p.Ops = append(p.Ops, Op{Kind: "poke", K: g.pick(permKeys)})
+	}
 	for i := 0; i < nops; i++ {
 		switch k := g.intn(13); {
 		case k == 12:
